@@ -17,7 +17,8 @@ META = {
              "and of walk() with 1-3 callbacks is compared as a multiset with {(c, rows(c))}. Non-trivial: >=2 dimensions "
              "and >=1 delivered combination mixing a category with a marginal marker; distinct by content hash"),
     "require": {t: ["class:ndims=1", "class:ndims=4", "class:n=0", "class:common_without_rows", "class:empty_intersection",
-                    "events:mixed", "events:all_uncommon", "walk:callbacks=3", "via:interactions"] for t in ("quick", "thorough")},
+                    "events:mixed", "events:all_uncommon", "walk:callbacks=3", "via:interactions",
+                    "walk:after_in_place_edit", "class:strided_rowid_arrays", "walk:repeated"] for t in ("quick", "thorough")},
     "assumptions": ["the order of delivery is not part of the property; only the multiset of (coordinates, row ids)"],
 }
 
@@ -33,6 +34,8 @@ def cases(ctx):
     for i in range(ctx.shard["n"]):
         c = gen.cube_case(rng, min_dims=1, max_dims=4, max_axes=1, n=gen.pick(rng, [0, 1, 3, 8, 20, 200]))
         c["ncallbacks"] = int(rng.integers(1, 4))
+        c["stride_seed"] = int(rng.integers(0, 2 ** 31)) if rng.random() < 0.25 else None
+        c["edit_seed"] = int(rng.integers(0, 2 ** 31)) if rng.random() < 0.3 else None
         c["via"] = gen.pick(rng, ["interactions", "walk"])
         yield c
 
@@ -74,6 +77,11 @@ def judge(ctx, case):
     exp, empties = expected_events(dense, commons)
     if empties:
         ctx.count("class:empty_intersection")
+    if case.get("stride_seed") is not None:
+        r3 = numpy.random.default_rng(case["stride_seed"])
+        for d in dims:
+            gen.stride_entries(d, r3)
+        ctx.count("class:strided_rowid_arrays")
     cube = catii.ccube(dims, interacting_shape=case["shape"])
     logs = []
     if case["via"] == "interactions":
@@ -129,6 +137,37 @@ def judge(ctx, case):
         ctx.count("walk:repeated")
         if again != seen:
             ctx.violation("second-walk-differs:" + feat, "a second walk of the same cube presents different combinations", case)
+            return
+    # the dimensions are live objects: after cells of one of them are re-assigned in place, walking
+    # the SAME cube object again presents the combinations of the new data
+    if case.get("edit_seed") is not None and n and len(dense) >= 1:
+        r2 = numpy.random.default_rng(case["edit_seed"])
+        d = int(r2.integers(0, len(dense)))
+        a = dense[d].copy()
+        vals = list(range(case["extents"][d]))
+        rows = numpy.unique(r2.integers(0, n, size=int(r2.integers(1, 4))))
+        groups = {}
+        for row in rows.tolist():
+            v = int(vals[int(r2.integers(0, len(vals)))])
+            a[row] = v
+            groups.setdefault((v,), []).append(row)
+        dims[d].update({k: numpy.array(sorted(v), dtype=U32) for k, v in groups.items()})
+        dense2 = list(dense)
+        dense2[d] = a
+        exp2, _ = expected_events(dense2, commons)
+        got2 = {}
+        for c, r in cube.interactions():
+            if c in got2:
+                ctx.violation("duplicate-event-after-edit:" + feat, "combination %r presented twice" % (c,), case)
+                return
+            got2[c] = r.tolist()
+        ctx.count("walk:after_in_place_edit")
+        ctx.evaluation({"d": dense2, "c": commons, "edited": True}, len(dense) >= 2)
+        if got2 != exp2:
+            diff = [c for c in set(got2) | set(exp2) if got2.get(c) != exp2.get(c)][:3]
+            ctx.violation("walk-after-in-place-edit:" + feat,
+                          "after update() of dimension %d the same cube presents stale combinations, e.g. %r: got %r expected %r"
+                          % (d, diff, [got2.get(c) for c in diff], [exp2.get(c) for c in diff]), case)
             return
     for other in logs[1:]:
         if len(other) != len(log) or any(a[0] != b[0] or a[1].tolist() != b[1].tolist() for a, b in zip(log, other)):
